@@ -257,6 +257,8 @@ class C16(Campaign):
                 points.append((k, kind, rnd.choice(FRACS)))
             for k in sorted(rnd.sample(range(nops), min(nops, 6))):
                 points.append((k, "oserror", rnd.choice(FRACS)))
+        if only is None and "logfile" in sc["files"]:
+            self._interrupted_call(sc)
         for k, kind, frac in points:
             if k >= nops:
                 continue
@@ -296,6 +298,63 @@ class C16(Campaign):
             self._judge_crash(sc, calls, trace, k, kind, frac, disk2.snapshot(), real=True)
             res.count("evaluations")
         return res.pack()
+
+    def _interrupted_call(self, sc):
+        """Fault: a data source of the logger (a user field added through add_field) raises in the middle of one
+        observer call; the run is then continued.  Every line in the log must still be complete."""
+        res = self.res
+        rnd = random.Random(sc["seed"] + 17)
+        disk, w, rec = self._deploy(sc)
+        mc = w.mc
+        if getattr(mc, "default_logger", None) is None:
+            mc.close()
+            return
+        n = sum(s["n"] for s in sc["steps"])
+        li = sc["files"].get("logging_interval", 1)
+        ncalls = n // li + 1
+        fail_at = rnd.randint(1, ncalls)
+        state = {"calls": 0, "ok": 0}
+
+        def fragile():
+            state["calls"] += 1
+            if state["calls"] == fail_at:
+                raise RuntimeError("simulated failure of a logged quantity")
+            state["ok"] += 1
+            return state["calls"]
+
+        mc.default_logger.add_field("Fault", fragile, "{:>8d}")
+        interrupted = 0
+        import warnings
+        warnings.simplefilter("ignore")
+        for _ in range(3):
+            left = n - mc.step_count
+            try:
+                if left > 0 or mc.step_count == 0:
+                    mc.run(left)
+                break
+            except RuntimeError as e:
+                if "simulated failure" not in str(e):
+                    raise
+                interrupted += 1
+            except Exception:  # noqa: BLE001 - unrelated failure: not this sub-check's business
+                mc.close()
+                return
+        header = mc.default_logger.create_header()
+        mc.close()
+        res.count("fault.observer_data_source_raises", interrupted)
+        if not interrupted:
+            return
+        text = disk.files[sc["files"]["logfile"]["name"]].durable
+        ncol = len(header.split())
+        lines = text.split("\n")
+        body = lines[:-1] if text.endswith("\n") else lines
+        bad = [l for l in body[1:] if len(l.split()) != ncol]
+        if body and body[0] != header or bad or not text.endswith("\n"):
+            self._v("log_line_incomplete_after_interrupted_call", f"file=log|driver={sc['driver']}",
+                    f"a logged quantity raised during call #{fail_at}; afterwards the log holds "
+                    f"{'a line without newline; ' if not text.endswith(chr(10)) else ''}malformed rows {bad[:2]!r} (header has {ncol} columns)",
+                    f"interrupted call #{fail_at}")
+        res.cover.add(f"interrupted|{sc['driver']}|{sc['files'].get('logging_mode')}")
 
     # -- invariants --------------------------------------------------------------------
     def _v(self, invariant, context, detail, at, data=None):
